@@ -54,6 +54,13 @@ def int_arrays(tier, rng):
     out = []
     for n in range(1, 8):
         out += [list(t) for t in itertools.product(range(3), repeat=n)]
+    # ramps without any baseline (the contact is the first sample)
+    out += [[2, 3, 5, 7, 8, 8, 8, 9, 11, 11, 11],
+            [3, 5, 8, 9, 10, 13, 12, 15, 16, 17, 17, 18, 18, 17],
+            [2, 5, 8, 10, 13, 14, 14, 15, 17, 19, 22, 23, 26, 27, 28, 31,
+             33, 35, 35, 37]]
+    for n in range(8, 24, 3):
+        out.append([2 + 2 * i + (i % 3 == 0) for i in range(n)])
     k = 1500 if tier == "quick" else 20000
     for _ in range(k):
         n = rng.choice([10, 11, 12, 20, 21, 30, 40])
@@ -172,6 +179,9 @@ def run(ctx):
     jobs = [(f, m) for f in ints for m in EXACT]
     # envelope of the other four on a sample of the integer arrays
     sample = rng.sample(ints, 400 if ctx.tier == "quick" else 4000)
+    # (the ramps without a baseline always)
+    sample += [f for f in ints if len(f) >= 8 and f[0] < f[1] < f[2]
+               and f not in sample][:40]
     jobs += [(f, m) for f in sample for m in METHODS if m not in EXACT]
     reals, deg = real_arrays(ctx.tier, rng)
     ejobs = [(lab, a, m, False) for lab, a in reals for m in METHODS] + \
